@@ -43,7 +43,13 @@ Definition PushPost (s : st) (data : list Z) (offset : Z) (cb : option Z) (out :
           Permutation (fired s' ++ live (queue s')) (optl cb ++ fired s ++ live (queue s)) /\
           exists l, fired s' = fired s ++ l
   | TooManyGaps => MaxGaps < Z.of_nat (length (gaps s')) /\ readPos s' = readPos s /\
-          exists l, fired s' = fired s ++ l
+          (exists l, fired s' = fired s ++ l) /\
+          (* the state left behind (the connection closes): the queue only lost entries, and the
+             callback accounting is still exact except that the refused frame's own callback may be
+             neither fired nor queued (its buffer is simply dropped) *)
+          (forall k e, In (k, e) (queue s') -> In (k, e) (queue s)) /\
+          (exists rest, (rest = [] \/ rest = optl cb) /\
+             Permutation (fired s' ++ live (queue s') ++ rest) (optl cb ++ fired s ++ live (queue s)))
   end.
 
 Lemma tail_to_post s data offset cb a' endp1 q1 f1 out :
@@ -61,7 +67,13 @@ Proof.
     - rewrite fire_optl, T10, H9. exists ((l1 ++ l4) ++ optl cb). rewrite !app_assoc. reflexivity.
     - rewrite T10, H9. exists (l1 ++ l4). rewrite !app_assoc. reflexivity. }
   subst out. unfold PushPost. destruct (Z.ltb_spec MaxGaps (Z.of_nat (length G'))); cbn [fst snd gaps readPos fired queue].
-  - split; [lia|]. split; [reflexivity|exact Hf7].
+  - split; [lia|]. split; [reflexivity|]. split; [exact Hf7|]. split.
+    + intros k e Hin. apply T7 in Hin. tauto.
+    + destruct T11 as [(_&->)|(_&->)].
+      * exists []. split; auto. rewrite app_nil_r, fire_optl.
+        rewrite <- app_assoc. rewrite (Permutation_app_comm (optl cb) (live q4)). rewrite app_assoc.
+        rewrite T9, H8. apply Permutation_app_comm.
+      * exists (optl cb). split; auto. rewrite app_assoc. rewrite T9, H8. apply Permutation_app_comm.
   - set (new := {| e_data := slice S a' (b' - a'); e_cb := cb7 |}).
     destruct (reinsert S s G' (qset q4 a' new) a' b' new f7 I) as (I'&Hcov); auto; try lia.
     + apply qset_NoDup; auto.
